@@ -155,7 +155,7 @@ Proof. exact collinear_example. Qed.
 
 Example C05_zero_diffraction_instance : forall z,
   Cmod (pm_closure (fun _ => 1) 1 (RtoC (- (6.25e-6 + 4e-6) / 4)) (RtoC (- (6.25e-6 + 9e-6) / 4)) (RtoC (- (6.25e-6 + 4e-6) / 4))
-                   (RtoC (- (6.25e-6 + 9e-6) / 4)) 0 0 0 0 (RtoC (- 6.25e-6 / 2)) (RtoC (- 6.25e-6 / 2)) 0 0.00007 (0, 0.3)
+                   (RtoC (- (6.25e-6 + 9e-6) / 4)) 0 0 0 0 (RtoC (- (6.25e-6) / 2)) (RtoC (- (6.25e-6) / 2)) 0 0.00007 (0, 0.3)
                    (RtoC 0) (RtoC 0) (RtoC 0) 1.5 2 z) =
   Rabs 1 * (4 / sqrt (Sig 4e-6 9e-6 6.25e-6 * Sig 4e-6 9e-6 6.25e-6)) *
   exp (- (0.00007 * 0.00007 * (4e-6 + 9e-6) / Sig 4e-6 9e-6 6.25e-6) * ((1 + z) * (1 + z))).
